@@ -1,6 +1,7 @@
 import Rangers.Model.Evm11Gas
 import Rangers.Model.Evm11Keccak
 import Rangers.Model.Evm11Secp
+import Rangers.Model.Evm11Precomp
 /-!
 # C11 model, part 4: the interpreter loop, the frame skeleton, precompile pricing
 
@@ -716,9 +717,17 @@ def runPrecompile (addr : Nat) (input : BA) (gas : Nat) (g : Global) : CallRes :
       -- a `Run` that succeeded passed its input-length gate
       if ¬ precompileLenOk addr input.size then ⟨#[], 0, some (.desync "pc-length-gate"), g', 0⟩ else
       match unhex? (String.ofList (a.toList.drop 3)) with
-      | some out => ⟨out, gas - cost, none, g', 0⟩
+      | some out =>
+        -- where the body of `Run` is modelled, the recorded output must be the model's
+        match precompileRunModel addr input with
+        | some (some expected) => if expected = out then ⟨out, gas - cost, none, g', 0⟩ else ⟨#[], 0, some (.desync "pc-output"), g', 0⟩
+        | some none => ⟨#[], 0, some (.desync "pc-should-fail"), g', 0⟩
+        | none => ⟨out, gas - cost, none, g', 0⟩
       | none => ⟨#[], 0, some (.desync "pc-answer"), g', 0⟩
-    else ⟨#[], gas - cost, some .precompileError, g', 0⟩
+    else
+      match precompileRunModel addr input with
+      | some (some _) => ⟨#[], 0, some (.desync "pc-should-succeed"), g', 0⟩
+      | _ => ⟨#[], gas - cost, some .precompileError, g', 0⟩
 
 /-- common tail of Call/CallCode/DelegateCall/StaticCall: revert + gas confiscation -/
 def finishCallRes (snap : String) (ret : BA) (gas : Nat) (err : Option Fault) (g : Global) : CallRes :=
